@@ -1,24 +1,26 @@
-"""bin/check <Cxx> --replay <file>: re-run the native replay (and print the cbmc command) of a recorded counterexample."""
+"""bin/check <Cxx> --replay <file>: re-run the native replay (and print the cbmc query) of a recorded counterexample."""
 import json
 import shutil
 
+import lexbuild
 import runner
 
 
 def replay_file(pid, mod, path):
     rec = json.load(open(path))
-    obs = {}
-    for tier in ("quick", "thorough"):
-        for ob in mod.obligations(tier):
-            obs.setdefault(ob.key, ob)
-    ob = obs.get(rec["obligation"])
-    if ob is None:
-        print("obligation %s no longer exists" % rec["obligation"])
-        return 2
     scratch = runner.make_scratch()
     try:
-        if hasattr(mod, "prepare"):
-            mod.prepare(scratch)
+        tables = None
+        if getattr(mod, "NEEDS_LEXER", False):
+            tables = lexbuild.prepare_lexer(scratch, "quick")["tables"]
+        obs = {}
+        for tier in ("quick", "thorough"):
+            for ob in mod.build_obs(tier, tables):
+                obs.setdefault(ob.key, ob)
+        ob = obs.get(rec["obligation"])
+        if ob is None:
+            print("obligation %s no longer exists" % rec["obligation"])
+            return 2
         print("cbmc query :", " ".join(runner.cbmc_cmd(ob, scratch, ["--trace", "--property", rec["failed_property"]])))
         print("inputs     :", rec["inputs"])
         verdict, detail = runner.native_replay(ob, scratch, rec["inputs"], rec["failed_property"])
